@@ -328,6 +328,12 @@ pub fn predicate_holds(name: &str, plan: &Plan, v: &Violation) -> bool {
         "violating_node_is_spectator" => plan.nodes.get(v.node).is_some_and(|n| matches!(n.kind, NodeKind::Spectator { .. })),
         "has_injection" => !plan.injects.is_empty(),
         "survivors_received_different_amounts" => v.class.ends_with("+split"),
+        // the survivors learn of the death at different instants although they hold the same amount of
+        // the dead peer's input: their timeouts differ, or packets between two survivors are lost
+        "survivors_detect_at_different_times" => {
+            let alive = |i: usize| plan.nodes.get(i).is_some_and(|n| n.tick.stop_us.is_none() && matches!(n.kind, NodeKind::Peer { .. }));
+            !v.class.ends_with("+split") && (plan.nodes.iter().any(|n| n.timeout_ms.is_some()) || plan.windows.iter().any(|w| alive(w.from) && alive(w.to)))
+        }
         "never_drains_events" => plan.nodes.iter().any(|n| !n.drain),
         other => {
             eprintln!("unknown predicate {other} in known_findings.json");
@@ -443,13 +449,14 @@ pub fn check(spec: &PropSpec, tier: &str) -> i32 {
     let mut known_seen: BTreeMap<String, u64> = agg.known_seen.clone();
     let mut violation_count = 0;
     let mut new_classes = 0;
+    let max_new: usize = std::env::var("VERIF_MAX_CLASSES").ok().and_then(|s| s.parse().ok()).unwrap_or(4);
     for (index, seed, plan, v) in &agg.violations {
         if let Some(f) = match_finding(&findings, spec.id, plan, v) {
             *known_seen.entry(f.id.clone()).or_insert(0) += 1;
             continue;
         }
         violation_count += 1;
-        if !reported.insert(v.class.clone()) || new_classes >= 4 {
+        if !reported.insert(v.class.clone()) || new_classes >= max_new {
             continue;
         }
         new_classes += 1;
